@@ -1,7 +1,7 @@
 #!/bin/sh
 # stash_mut.sh Cxx [worktree-prefix] : copy a finished sub-agent's deliverables to /verif/seeded_pending and remove its worktree
 c=$1; pre=${2:-wt_m}
-for v in A B C D E F G H I J; do
+for v in A B C D E F G H I J K L M N; do
   if [ -d /tmp/${pre}_$c/mutation/$v ]; then
     rm -rf /verif/seeded_pending/$c-$v; mkdir -p /verif/seeded_pending/$c-$v
     for f in patch.diff demo.c build_demo.sh NOTES.md $(cd /tmp/${pre}_$c/mutation/$v && ls *.h 2>/dev/null); do cp /tmp/${pre}_$c/mutation/$v/$f /verif/seeded_pending/$c-$v/ 2>/dev/null; done
